@@ -58,15 +58,33 @@ def load_corpus(pid):
 _MOD = None
 
 
+class _LineTimeout(Exception):
+    pass
+
+
+def _alarm(signum, frame):
+    raise _LineTimeout()
+
+
 def _exec_one(line):
     from . import env
+    import signal
     env.reset_class_state()
     toks = line.split()
+    # a line takes milliseconds; one that does not come back within the limit (a loop that no longer terminates) is an
+    # observable of the implementation like any other exception, not a hang of the check
+    limit = int(os.environ.get('VERIF_LINE_TIMEOUT', '60'))
+    old = signal.signal(signal.SIGALRM, _alarm)
+    signal.alarm(limit)
     try:
         obs = _MOD.EXEC[toks[0]](toks[1:])
+    except _LineTimeout:
+        obs = ['EXC:Timeout']
     except Exception as e:  # an exception escaping the executor is an observable of the implementation
         obs = [env.exc_token(e)]
     finally:
+        signal.alarm(0)
+        signal.signal(signal.SIGALRM, old)
         env.reset_class_state()
     return line + ' | ' + ' '.join(obs)
 
@@ -152,6 +170,7 @@ def main(argv):
         if tier not in ('quick', 'thorough'):
             print('tier must be quick or thorough'); return 2
 
+    os.environ.setdefault('VERIF_LINE_TIMEOUT', '60' if tier == 'quick' else '600')
     # ---------------------------------------------------------------- 0/1: proof obligations
     ok_build, build_s, build_log = lean.build()
     if not ok_build:
